@@ -136,6 +136,7 @@ func c12Boundary(x *engine.X, tier string) {
 		if mapped {
 			dst = netip.AddrFrom16(dst.As16())
 		}
+		var shared *net.UDPAddr
 		if x.Deviate(2, "an earlier write to another destination") == 1 {
 			o, _ := syscall.Socket(syscall.AF_INET, syscall.SOCK_DGRAM|syscall.SOCK_CLOEXEC|syscall.SOCK_NONBLOCK, 0)
 			syscall.Bind(o, &syscall.SockaddrInet4{Addr: [4]byte{127, 0, 0, 2}})
@@ -145,7 +146,12 @@ func c12Boundary(x *engine.X, tier string) {
 			first := dgram(8, 5)
 			fc := 0
 			if target == 0 {
-				pc.AsyncWriteTo(first, &net.UDPAddr{IP: net.IPv4(127, 0, 0, 2), Port: oport}, func(err error) { fc++ })
+				// the caller may well keep one address object and refill it for every datagram it sends
+				fa := &net.UDPAddr{IP: net.IPv4(127, 0, 0, 2), Port: oport}
+				if x.Pick(2, "the two writes use: separate address objects | one object changed in place") == 1 {
+					shared = fa
+				}
+				pc.AsyncWriteTo(first, fa, func(err error) { fc++ })
 			} else {
 				mp.AsyncWrite(first, netip.AddrPortFrom(netip.AddrFrom4([4]byte{127, 0, 0, 2}), uint16(oport)), func(err error, m int) { fc++ })
 			}
@@ -169,6 +175,10 @@ func c12Boundary(x *engine.X, tier string) {
 			ua := &net.UDPAddr{IP: net.IPv4(127, 0, 0, 1), Port: rawPort}
 			if !mapped {
 				ua.IP = ua.IP.To4()
+			}
+			if shared != nil {
+				shared.IP, shared.Port = ua.IP, ua.Port
+				ua = shared
 			}
 			if syncWrite {
 				werr = pc.WriteTo(payload, ua)
